@@ -630,3 +630,53 @@ allowed_ptms = FunctionContract(
             ("yield ptm, ptm_graph_matcher", "yield ptm, None")],
 )
 CONTRACTS.append(allowed_ptms)
+
+
+# ------------------------------------------------------------------ fix_ptm: the residues a group of branches is matched against
+def setup_grp(cx):
+    resids = cx.val('resids', TSeq(TInt))                   # the residue numbers of the group's anchors (sorted, possibly repeated)
+    r2i = cx.uf('atoms_of_resid', [TInt], TSet(MNode))      # resid_to_idxs[resid]: the atoms with that residue number
+    removed = cx.box('removed', TSet(MNode))
+    cx.spec_env.update(RESIDS=resids)
+    SUB = cx.heap('SUBGRAPH_OF', Box(TSet(MNode)))          # what molecule.subgraph was asked for
+    res_ptms_in, known = Obj('res_ptms-iterator'), Obj('known_ptms')
+    res_list, residue, options = Obj('res_ptms-list'), Obj('residue'), Obj('options')
+    cx.spec_env.update(RESIDUE=residue, OPTIONS_SORTED=Obj('sorted-options'))
+
+    def subgraph(e, nodes):
+        SUB.e = to_z3(nodes, TSet(MNode))
+        return residue
+    molecule = Obj('Molecule', subgraph=Builtin(subgraph, 'molecule.subgraph'))
+
+    def allowed(e, res, ptms, kn):
+        e.oblige(res is residue and ptms is res_list and kn is known, 'allowed_ptms:for-this-residue-and-these-branches')
+        return options
+
+    def sorted_(e, xs, key=None, reverse=False):
+        e.oblige(xs is options and key is not None and reverse is True, 'options:sorted-largest-first')
+        return cx.spec_env['OPTIONS_SORTED']
+    cx.spec_env['allowed_ptms'] = Builtin(allowed, 'allowed_ptms')
+    cx.spec_env['sorted'] = Builtin(sorted_, 'sorted')
+    cx.spec_env['list'] = Builtin(lambda e, x: res_list if x is res_ptms_in else (_ for _ in ()).throw(EngineError('list() of something else')), 'list')
+    resid_to_idxs = Obj('resid_to_idxs', __getitem__=Builtin(lambda e, r: SV(TSet(MNode), r2i(to_z3(r, TInt))), 'resid_to_idxs[]'))
+    return dict(molecule=molecule, resids=resids, res_ptms=res_ptms_in, resid_to_idxs=resid_to_idxs, removed=removed, known_ptms=known)
+
+
+group_residues = FunctionContract(
+    F, 'fix_ptm', 'C14', short='fix_ptm[residues of a group]', setup=setup_grp, spec_env=dict(MNode=MNode),
+    region=dict(within=["for resids, res_ptms in itertools.groupby(ptm_atoms, key_func):"], start="res_ptms = list(res_ptms)", end="try:"),
+    locals=dict(n_idxs=TSet(MNode)),
+    ensures=[
+        # the branches of a group are matched against all atoms with the residue numbers of the group's anchors, minus the atoms
+        # already removed; the candidate modifications are those allowed_ptms finds there, tried largest first
+        "forall(lambda n: (n in n_idxs) == exists(lambda k: 0 <= k and k < len(RESIDS) and n in atoms_of_resid(RESIDS[k])), MNode)",
+        "forall(lambda n: (n in SUBGRAPH_OF) == (n in n_idxs and not (n in removed)), MNode)",
+        "residue is RESIDUE and options is OPTIONS_SORTED",
+    ],
+    modifies=['SUBGRAPH_OF'],
+    loops={'L1': LoopSpec(inv=["forall(lambda n: (n in n_idxs) == exists(lambda k: 0 <= k and k < _i and n in atoms_of_resid(RESIDS[k])), MNode)"],
+                          modifies=['n_idxs'])},
+    canary=[("residue = molecule.subgraph(n_idxs - removed)", "residue = molecule.subgraph(n_idxs)"),
+            ("reverse=True)", "reverse=False)")],
+)
+CONTRACTS.append(group_residues)
